@@ -137,6 +137,25 @@ def from_stamp(cx):
     cx.check(ok, "stamp", "a message whose sender is unset leaves send() only after `m.from := self.id` (whatever its type)", push)
 
 
+@obligation("MSG.forward_unchanged", ["C17", "C08", "C10"], floor=1, kind="message template (received object passed on)",
+            why="a request a follower passes on to the leader must arrive as it was received: `from` names the transfer target / the node whose read or proposal it is, the payload is the request; only the addressee changes")
+def forward_unchanged(cx):
+    from ..templates import UNCHANGED
+    n = 0
+    for t in send_templates(cx.prog):
+        if not (t.obj[0] == "param" and t.types() is None):
+            continue
+        if not is_param_of_adt(t.fn, t.obj, "Message"):
+            continue
+        changed = sorted(k for k, v in t.fields.items() if k != "*" and not k.startswith("$") and v != UNCHANGED)
+        base_ok = t.fields.get("*") == UNCHANGED
+        key = tkey(cx, t, "forward")
+        ok = base_ok and changed == ["to"] and is_f(t.get("to"), "RaftCore.leader_id")
+        cx.check(ok, key, "a received message is passed on with nothing but its addressee changed (to := leader_id); fields rewritten: %s" % changed, t.site, to=t.show_field("to"))
+        n += 1
+    cx.check(n >= 1, "floor", "the follower's forwarding of requests to the leader was found (which types are forwarded: STEP.type_partition)")
+
+
 @obligation("MSG.priority_stamp", ["C10", "C03"], floor=3, kind="must-pass-through per message type",
             why="voters compare the candidate's priority with their own when logs are equally long; a vote or pre-vote request that does not carry it is refused by every voter with a positive priority, and nobody is ever elected")
 def priority_stamp(cx):
@@ -290,6 +309,35 @@ def grant_guard(cx):
         require(cx, t.site, key, "a vote response whose reject may be false needs is_up_to_date(m.index, m.log_term) on every path", utd,
                 detail={"reject": t.show_field("reject")})
     cx.check(n >= 1, "floor", "at least one granting vote response template exists")
+
+
+@obligation("MSG.vote_response_commit", ["C04", "C01", "C05"], floor=1, kind="message template",
+            why="a (pre)candidate fast-forwards its commit index to the (commit, commit_term) pair a vote response carries: anything but the voter's own commit point there lets a non-leader commit what no leader committed")
+def vote_response_commit(cx):
+    n = 0
+    for t in tmpls(cx, {"MsgRequestVoteResponse", "MsgRequestPreVoteResponse"}):
+        c, ct = t.get("commit"), t.get("commit_term")
+        key = tkey(cx, t, "vote-response:commit")
+        if c in (DEFAULT, ("int", 0)) and ct in (DEFAULT, ("int", 0)):
+            continue
+        n += 1
+
+        def proj(e):
+            # one projection of raft_log.commit_info(): .0/.1, or a named field of a small wrapper built from it
+            if e[0] == "tfield" and is_log_call(e[1], "commit_info"):
+                return e[1], e[2]
+            if e[0] == "field" and is_log_call(e[1], "commit_info"):
+                return e[1], e[2]
+            return None, None
+        b1, p1 = proj(c)
+        b2, p2 = proj(ct)
+        ok = b1 is not None and b1 == b2 and p1 != p2
+        if ok and isinstance(p1, int):
+            ok = (p1, p2) == (0, 1)
+        elif ok:
+            ok = "term" not in str(p1).lower() and "term" in str(p2).lower()
+        cx.check(ok, key, "a vote response carries the voter's own commit point: (commit, commit_term) = raft_log.commit_info() (found %s, %s)" % (t.show_field("commit")[:80], t.show_field("commit_term")[:80]), t.site)
+    cx.check(n >= 1, "floor", "a vote response carrying commit info exists")
 
 
 @obligation("VOTE.request_fields", ["C03", "C16", "C01", "C04"], floor=1, kind="message template",
